@@ -366,6 +366,19 @@ def _impl_var(case):
                        rms=dev(lambda x1, l1: util.rms(x1)), rms_detrend=dev(lambda x1, l1: util.rms(x1, detrend=True)),
                        same_input=bool(np.array_equal(xq, (x if dt == 'float32' else np.round(x)).astype(dt))))
         return res
+    if w == 'fftpow':
+        # single-frequency estimators asked for the EXACT analysis frequency k * fs / n (computed in binary64 as a caller would)
+        n, k, A, p, fs = case['n'], case['k'], case['A'], case['p'], case['fs']
+        x = _tone(n, k, A, p)
+        f = k * fs / n
+        X = np.stack([x, 0.5 * x, 2.0 * x])
+        return {'f': f, 'ratio': f / fs * n, 'fft': float(util.tone_power_fft(x, fs, f)),
+                'fft_hann': float(util.tone_power_fft(x, fs, f, window='hann')), 'fft_kw': float(util.tone_power_fft(x, fs, frequency=f, window=None)),
+                'fft_batch': _fl(util.tone_power_fft(X, fs, f)), 'fft_batch_hann': _fl(util.tone_power_fft(X, fs, f, 'hann')),
+                'conv': float(util.tone_power_conv(x, fs, f, detrend=None)), 'conv_hann': float(util.tone_power_conv(x, fs, f, 'hann', None)),
+                'conv_default': float(util.tone_power_conv(x, fs, f)), 'conv_batch': _fl(util.tone_power_conv(X, fs, f, detrend=None)),
+                'phase_conv': float(util.tone_phase_conv(x, fs, f)), 'phase_conv_hann': float(util.tone_phase_conv(x, fs, f, 'hann')),
+                'psd_df_at_f': float(util.psd_df(x, fs, detrend=None).loc[f]) if f in util.psd_df(x, fs, detrend=None).index else None}
     if w == 'batchinv':
         X = np.random.RandomState(case['seed']).uniform(-1, 1, case['shape']) * case['amp']
         C = util.csd(X, detrend=None)
@@ -548,6 +561,26 @@ def _oracle_var(case, res):
             return f'{tag}: psd reads {res["psd_bin"]} at the bin, the values have {res["want"]}'
         if res.get('same_input') is False:
             return f'{tag}: the input array was modified'
+        return None
+    if w == 'fftpow':
+        n, k, A, p, fs = case['n'], case['k'], case['A'], case['p'], case['fs']
+        tag = (f"tone of RMS {A} at the exact bin {k} of {n} samples, fs {fs} (frequency {res['f']!r}, frequency / fs * n = "
+               f"{res['ratio']!r})")
+        # tone_power_fft and the default tone_power_conv / tone_phase_conv detrend linearly: the least-squares line of a tone
+        # of k cycles biases the reading by less than 1.5 / k^2 (observed: 0.6 / k^2); a wrong bin is off by A/2 or more
+        loose = 1.5 / (k * k) + 1e-5
+        for key, want, tol in (('fft', A, loose), ('fft_hann', A, loose), ('fft_kw', A, loose), ('conv', A, TOL), ('conv_hann', A, TOL),
+                               ('conv_default', A, loose)):
+            if not abs(res[key] - want) <= tol * A:
+                return f'{tag}: {key} reads {res[key]}, expected {want} (tolerance {tol})'
+        for key, tol in (('fft_batch', loose), ('fft_batch_hann', loose), ('conv_batch', TOL)):
+            if len(res[key]) != 3 or not all(abs(v - m * A) <= tol * m * A for v, m in zip(res[key], (1.0, 0.5, 2.0))):
+                return f'{tag}: {key} of the rows (A, A/2, 2A) reads {res[key]}'
+        for key in ('phase_conv', 'phase_conv_hann'):
+            if not abs(_wrap(res[key] - p)) <= 2.0 / (k * k):
+                return f'{tag}: {key} reads {res[key]}, expected {p}'
+        if res['psd_df_at_f'] is not None and not abs(res['psd_df_at_f'] - A) <= TOL * A:
+            return f'{tag}: psd_df labelled {res["f"]} Hz reads {res["psd_df_at_f"]}'
         return None
     if w == 'batchinv':
         tag = f"csd_to_signal(csd(X)) for a batch X of shape {case['shape']}"
@@ -1139,6 +1172,17 @@ def _var_cases(rng, quick):
         for ax in axes:
             yield {'kind': 'var', 'what': 'rmsax', 'shape': shape, 'axis': ax, 'seed': rng.randrange(10 ** 6),
                    'a': rng.uniform(-5, 5), 'b': rng.choice([0.0, rng.uniform(-2, 2), 1.5])}
+    # the single-frequency estimators at exact bins of realistic records (rates x durations) and of arbitrary lengths
+    grid = [(fs, int(round(fs * dur))) for fs in (48000.0, 44100.0, 100000.0, 195312.5, 97656.25) for dur in (0.05, 0.1, 0.2)]
+    yield {'kind': 'var', 'what': 'fftpow', 'fs': 48000.0, 'n': 2400, 'k': 55, 'A': 1.0, 'p': 0.3}          # 1100 Hz, 50 ms
+    for fs, n in grid:
+        top = n // 2 - 12
+        for k in sorted({12, top} | {rng.randint(12, top) for _ in range(4 if quick else 40)}):
+            yield {'kind': 'var', 'what': 'fftpow', 'fs': fs, 'n': n, 'k': k, 'A': float(10 ** rng.uniform(-2, 2)), 'p': rng.uniform(-3, 3)}
+    for _ in range(80 if quick else 1500):
+        n = rng.randint(100, 2000)
+        yield {'kind': 'var', 'what': 'fftpow', 'fs': rng.choice([48000.0, 44100.0, 100000.0, 195312.5, 97656.25, 25000.0]), 'n': n,
+               'k': rng.randint(12, n // 2 - 12), 'A': float(10 ** rng.uniform(-2, 2)), 'p': rng.uniform(-3, 3)}
     for shape in ([3, 64], [2, 8], [1, 10], [5, 4], [2, 3, 16], [4, 1, 6]):
         yield {'kind': 'var', 'what': 'batchinv', 'shape': shape, 'seed': rng.randrange(10 ** 6), 'amp': float(10 ** rng.uniform(-2, 2))}
     for form in ('array2d', 'frame', 'series', 'array1d'):
